@@ -383,6 +383,19 @@ func (n *Node) StoreWrongRoot(b *lib.Bundle) (attempted bool, err error) {
 	return true, err
 }
 
+// StoreWrongParent offers a copy of the bundle with the right number and a parent hash that is not the
+// head's directly to Blockchain.Store (a block of another branch): verifyBlockSuccession must refuse it.
+func (n *Node) StoreWrongParent(b *lib.Bundle) (c *lib.Bundle, attempted bool, err error) {
+	c = b.Clone()
+	commitments, err := n.BC.SanityCheckNewHeight(c.Block, c.SU, c.Classes)
+	if err != nil {
+		return c, false, err
+	}
+	c.Block.ParentHash = new(felt.Felt).Add(c.Block.ParentHash, lib.F(1))
+	err, _, _ = lib.Try(func() error { return n.BC.Store(c.Block, commitments, c.SU, c.Classes) })
+	return c, true, err
+}
+
 func (n *Node) Store(b *lib.Bundle) error {
 	err, _, _ := lib.Try(func() error { return lib.StoreOn(n.BC, b) })
 	return err
